@@ -140,6 +140,13 @@ def check_points(case, ev):
     for name in ("ineqs_satisfied", "separable", "ineq_separate_points"):
         P = call(_poly, case, what="ge_polyhedron construction")
         X = np.array(pts, dtype=_pts_dtype(np, pts, case))
+        # the points may also arrive in one of the library's own array types (what boolean_ndarray.from_list,
+        # get_neighbourhood or an earlier construct() hand back): same numbers, default column labels
+        form = (len(str(pts)) + len(M)) % 4
+        if form == 1:
+            X = pnd.integer_ndarray(X)
+        elif form == 2 and all(v in (0, 1) for v in np.asarray(X).reshape(-1).tolist()):
+            X = pnd.boolean_ndarray(X)
         if alias and name != "ineqs_satisfied":
             r = call(getattr(pnd, name), P, X, what=f"puan.ndarray.{name}")
         else:
